@@ -6,7 +6,7 @@ from typing import Dict, List, Optional, Set
 
 from .. import callgraph
 from ..cfg import CFG
-from ..core import AnalysisError, call_name, calls_in, dotted, is_self_attr, norm, walk_local
+from ..core import AnalysisError, call_name, calls_in, dotted, is_self_attr, norm, walk_local, param_names
 from . import common
 
 EXPLANATION = (
@@ -704,18 +704,38 @@ def _vcs_remove_takes_back_creation_rule(ctx, res) -> None:
             continue
         def registers(m) -> bool:
             return any(is_self_attr(c.func, "_do") for c in calls_in(m.node))
-        def plain(m, what) -> bool:
-            return any(isinstance(c.func, ast.Attribute) and c.func.attr == what and is_self_attr(c.func.value, "normal_actions") for c in calls_in(m.node))
+        # the removal may be split into private steps (`self._remove_tracked(rel)`, `self._remove_untracked(path)`): read in place; the
+        # runner of the program stays a call
+        rm_node = common.inline_private_calls(idx, rm, keep=("_do",))
+        path_param = (param_names(rm.node) + [None, None])[1]
+        plain_calls = [c for c in calls_in(rm_node) if isinstance(c.func, ast.Attribute) and c.func.attr == "remove" and is_self_attr(c.func.value, "normal_actions")]
+
+        def is_the_path(e) -> bool:
+            e = common._subst_single_locals(rm_node, e)
+            return isinstance(e, ast.Name) and e.id == path_param
+
         unregistered = [k for k in ("create_file", "create_folder") if k in cls.methods and not registers(cls.methods[k])]
         n += 1
-        ok = not unregistered or plain(rm, "remove")
+        wrong_arg = [c for c in plain_calls if not (c.args and is_the_path(c.args[0]))]
+        ok = not unregistered or (bool(plain_calls) and not wrong_arg)
         res.add("R10.16", f"{cls.name}.remove|takes-back-an-unregistered-creation", ok, rm.where,
                 "what a creation command made without telling the program is removed plainly" if ok else
-                f"{cls.name}.{unregistered[0]} makes the path without registering it with the program, but {cls.name}.remove only asks the program to "
-                "remove it: the program does not know the path, nothing is removed, and the rollback of a failed composite change leaves the stray "
-                "folder in the tree", function=rm.qualname)
+                (f"{cls.name}.remove hands `{ast.unparse(wrong_arg[0].args[0]) if wrong_arg[0].args else ''}` to the plain removal, not the path it was given: a path relative to "
+                 "the repository root is looked up from the process's working directory, is not found there, and the untracked folder that create_folder made stays in the tree"
+                 if wrong_arg else
+                 f"{cls.name}.{unregistered[0]} makes the path without registering it with the program, but {cls.name}.remove only asks the program to "
+                 "remove it: the program does not know the path, nothing is removed, and the rollback of a failed composite change leaves the stray "
+                 "folder in the tree"), function=rm.qualname)
+        # the existence test in front of the plain removal looks at the same path
+        for t in [c for c in calls_in(rm_node) if call_name(c) in ("exists", "lexists") and c.args]:
+            n += 1
+            ok_t = is_the_path(t.args[0])
+            res.add("R10.16", f"{cls.name}.remove|what-is-left-is-looked-for-at-the-path-given", ok_t, f"{rm.unit.rel}:{t.lineno}",
+                    "what the program left behind is looked for at the path the command was given" if ok_t else
+                    f"{cls.name}.remove tests `{ast.unparse(t)[:60]}`: not the path it was given (a path relative to the repository root is resolved against the process's "
+                    "working directory), so the untracked folder is never found and never removed", function=rm.qualname)
         if registers(rm):
-            for c in calls_in(rm.node):
+            for c in calls_in(rm_node):
                 if is_self_attr(c.func, "_do") and c.args and isinstance(c.args[0], ast.List):
                     words = [e.value for e in c.args[0].elts if isinstance(e, ast.Constant) and isinstance(e.value, str)]
                     if cls.name == "GITCommands" and words[:1] == ["rm"]:
